@@ -53,10 +53,12 @@ PROPS["C08"] = {
             "the reference evaluator (fired ids in order, match data, interruption, per-phase return values); non-trivial = a flow "
             "action fired, at least one rule was skipped by it and at least one rule was evaluated afterwards; distinct = distinct case encodings",
     "essential": {"all": ["skipped-by-skip", "skipped-by-skipAfter", "stopped-by-allow:all", "stopped-by-allow:phase", "stopped-by-allow:request",
-                          "marker-not-found-in-phase", "skip-larger-than-remaining-rules", "phase-5-rule-after-allow", "engine:DetectionOnly"]},
+                          "marker-not-found-in-phase", "skip-larger-than-remaining-rules", "phase-5-rule-after-allow", "engine:DetectionOnly",
+                          "allow-request-raised-after-request-phases"]},
     "assumptions": COMMON_ASSUME + [
-        "reference evaluator written from the action documentation (spec ledger in DESIGN.md 3.3); markers inside a skip window, allow:request in "
-        "phases 3-5 and bare allow in phase 5 are undocumented and excluded by construction",
+        "reference evaluator written from the action documentation (spec ledger in DESIGN.md 3.3); markers inside a skip window and bare allow in "
+        "phase 5 are undocumented and excluded by construction; allow:request raised in phases 3-5 is generated and modelled as covering "
+        "no later phase (the property: nothing but the documented scope reaches a later phase; the logging phase always runs)",
     ],
 }
 
@@ -175,11 +177,14 @@ PROPS["C07"] = {
             "and malformed arguments, macros naming any variable) and every action in every documented spelling (setvar flag/delete/"
             "arithmetic/macro keys, every ctl option with ids, ranges, VAR:key and VAR:/re/, ...); chains; SecDataset) with byte-level "
             "mutation of ~8% of the lines, x generated traffic (urlencoded / JSON / XML / multipart / raw bodies, valid and broken) driven "
-            "through canonical and anomalous API scripts or ParseRequestReader; oracle = recover() around NewWAF and every call, NewWAF "
+            "through canonical and anomalous API scripts or ParseRequestReader; in half of the cases the request values are built from every "
+            "decoder's escape alphabet (complete and truncated escapes, invalid UTF-8) and 1-3 rules run random transformation chains over "
+            "everything the peer controls; oracle = recover() around NewWAF and every call, NewWAF "
             "returns exactly one of (waf, error), watchdog for hangs; non-trivial = the configuration was accepted and traffic was driven "
             "through it; distinct = distinct case encodings",
     "essential": {"all": ["accepted", "rejected-with-error", "rules-fired", "parse-request-reader", "act:setvar", "act:ctl", "op:rx", "op:pm",
-                          "op:validateNid", "op:restpath", "dir:secruleremovebymsg", "dir:secruleupdatetargetbyid", "dir:secauditlogformat"]},
+                          "op:validateNid", "op:restpath", "dir:secruleremovebymsg", "dir:secruleupdatetargetbyid", "dir:secauditlogformat",
+                          "hostile-values-through-transformation-chains"]},
     "vocab_complete": True,
     "assumptions": COMMON_ASSUME + [
         "@rbl, @geoLookup and SecRemoteRules (network I/O by design) are compiled but not driven with traffic; @inspectFile / exec name a non-existent program",
